@@ -12,12 +12,13 @@
 (*   k = "plain": one of the twelve predefined spaces, ord = << >>         *)
 (*   k = "dir"  : DirectionalSobolevSpace(ord), entries in 0..3 or Inf     *)
 (* The state machine walks over all triples of spaces of one universe      *)
-(* (plain spaces + directional spaces of ONE spatial dimension DirLen);    *)
+(* (plain spaces + directional spaces of the spatial dimensions DirLens);    *)
 (* its invariants are the order laws.                                      *)
 (***************************************************************************)
 EXTENDS Naturals, Sequences, FiniteSets, TLC, Json, SequencesExt
 
-CONSTANTS DirLen,      \* spatial dimension of the directional spaces in this universe
+CONSTANTS DirLens,     \* spatial dimensions of the directional spaces in this universe (a set: spaces of
+                       \* different dimensions are incomparable unless isotropic)
           MaxOrd       \* finite smoothness orders are 0..MaxOrd, plus Inf
 
 Inf == 99
@@ -67,15 +68,19 @@ Eq(a, b) == Norm(a) = Norm(b)
 Le(a, b) ==
   LET x == Norm(a)  y == Norm(b) IN
   CASE x.k = "plain" /\ y.k = "plain" -> PlainLe(x.name, y.name)
+    \* same number of directions: componentwise; different numbers of directions: only through an
+    \* isotropic space between them (x in H^min(x) in H^max(y) in y), the transitive closure of the two
+    \* mixed cases below
     [] x.k = "dir" /\ y.k = "dir" ->
-         Len(x.ord) = Len(y.ord) /\ \A i \in DOMAIN x.ord : x.ord[i] >= y.ord[i]
+         IF Len(x.ord) = Len(y.ord) THEN \A i \in DOMAIN x.ord : x.ord[i] >= y.ord[i]
+         ELSE SeqMin(x.ord) >= SeqMax(y.ord)
     \* D(o) is contained in H^min(o) and contains H^max(o); these bounds are sharp.
     [] x.k = "dir" /\ y.k = "plain" -> PlainLe(HName(SeqMin(x.ord)), y.name)
     [] x.k = "plain" /\ y.k = "dir" -> PlainLe(x.name, HName(SeqMax(y.ord)))
 
 Lt(a, b) == Le(a, b) /\ ~Eq(a, b)
 
-DirSpaces == {Dir(o) : o \in [1..DirLen -> Orders]}
+DirSpaces == UNION {{Dir(o) : o \in [1..n -> Orders]} : n \in DirLens}
 Universe == {Plain(n) : n \in PlainNames} \cup DirSpaces
 
 VARIABLES a, b, c
